@@ -188,7 +188,23 @@ def check_identity_stress(case):
     return OK(made >= 100, f"identity_after_{n_other}")
 
 
-CHECKS = {"basis": check_basis, "from_string": check_from_string, "identity_stress": check_identity_stress}
+def check_pair_light(case):
+    """Two classical patterns of different lengths: the basis is {p} if q contains p, else
+    {p, q} - in both orders, through Basis and through Av.  (All pairs of two lengths are swept:
+    a wrong containment answer on one pair in a few thousand is enough to keep a redundant
+    element or to drop a needed one.)"""
+    pp, q = tuple(case[0]), tuple(case[1])
+    want = [pp] if ref.contains(q, pp) else sorted([pp, q], key=ref.perm_key)
+    for order in ((pp, q), (q, pp)):
+        got = [tuple(x) for x in Basis(*[Perm(t) for t in order])]
+        if got != want:
+            return BAD("pair_basis", {"input": [list(t) for t in order], "got": [list(t) for t in got], "want": [list(t) for t in want]})
+    if [tuple(x) for x in Av([Perm(q), Perm(pp)]).basis] != want:
+        return BAD("pair_av_basis", {"input": [list(q), list(pp)]})
+    return OK(len(want) == 1, "redundant" if len(want) == 1 else "both_kept", key=f"{pp}|{q}")
+
+
+CHECKS = {"basis": check_basis, "from_string": check_from_string, "identity_stress": check_identity_stress, "pair_light": check_pair_light}
 
 
 # ------------------------------------------------------------------ generators
@@ -285,6 +301,16 @@ def shard_small_classical(acc, shard, nshards, max_len, max_size):
             i += 1
 
 
+def shard_pairs_light(acc, shard, nshards, pairs_of_lengths):
+    i = 0
+    for a, b in pairs_of_lengths:
+        for pp in ref.perms(a):
+            for q in ref.perms(b):
+                if i % nshards == shard:
+                    acc.record("pair_light", check_pair_light, [list(pp), list(q)])
+                i += 1
+
+
 def shard_triples_classical(acc, shard, nshards, lo, hi):
     """every 3-subset of the classical patterns of length lo..hi (4060 for 3..4)"""
     pats = [list(p) for n in range(lo, hi + 1) for p in ref.perms(n)]
@@ -326,6 +352,7 @@ FUZZ = {"basis": ("basis", basis_cases), "from_string": ("from_string", string_c
 
 def run(acc, tier):
     engine.pmap(acc, shard_identity, extra=((50, 1500, 5000) if tier == "quick" else (50, 1500, 5000, 45000),))
+    engine.pmap(acc, shard_pairs_light, extra=(((2, 5), (3, 5), (4, 5), (3, 6)) if tier == "quick" else ((3, 5), (4, 5), (3, 6), (4, 6), (5, 6), (3, 7), (4, 7)),))
     if tier == "quick":
         engine.pmap(acc, shard_small_classical, extra=(3, 2))
         engine.pmap(acc, shard_small_mesh, extra=(3,))
